@@ -21,13 +21,23 @@ class Sc (α : Type) where
   /-- `std::numeric_limits<T>::epsilon()` and `::min()`: machine parameters, inputs of the model -/
   eps : α
   minPos : α
+  /-- `std::abs(std::complex<T>)` (libstdc++: `hypot(re, im)`) -/
+  cabs : α × α → α
 
 namespace Sc
 variable {α : Type} [Sc α]
 @[inline] def gt (a b : α) : Bool := Sc.lt b a
 @[inline] def ge (a b : α) : Bool := Sc.le b a
 @[inline] def ne (a b : α) : Bool := !(Sc.eq a b)
+/-- complex helpers: `std::complex<T>` is modelled as a pair -/
+@[inline] def conj [Neg α] (z : α × α) : α × α := (z.1, -z.2)
+@[inline] def ceq (z w : α × α) : Bool := Sc.eq z.1 w.1 && Sc.eq z.2 w.2
+/-- `std::norm(z)` = re² + im² -/
+@[inline] def cnorm [Add α] [Mul α] (z : α × α) : α := z.1 * z.1 + z.2 * z.2
 end Sc
+
+/-- C `hypot` from libm (the function libstdc++ calls for `std::abs(std::complex<double>)`); executable model only -/
+@[extern "hypot"] opaque hypotF : Float → Float → Float
 
 instance : Sc Float where
   abs := Float.abs
@@ -40,6 +50,7 @@ instance : Sc Float where
   eq a b := a == b
   eps := Float.ofBits 0x3CB0000000000000      -- 2^-52
   minPos := Float.ofBits 0x0010000000000000   -- 2^-1022
+  cabs z := hypotF z.1 z.2
 
 /-- C integer helpers used by generated code.  All C integer variables live in `Int`. -/
 def intRange (lo hi : Int) : List Int := (List.range (hi - lo).toNat).map (fun (k : Nat) => lo + (k : Int))
